@@ -207,8 +207,8 @@ PROPS = {
         assumptions=["ordinates on integer grids up to 2^26 (differences exact) or exactly representable dyadic maps of them; no NaN"],
     ),
     "C12": dict(
-        modules=["GeomVerif.Properties.C12", "GeomVerif.Properties.C12Sound"],
-        n_quick=20000, n_thorough=200000, thorough_seeds=3, min_theorems=7,
+        modules=["GeomVerif.Properties.C12", "GeomVerif.Properties.C12Sound", "GeomVerif.Properties.C12Collinear"],
+        n_quick=20000, n_thorough=200000, thorough_seeds=3, min_theorems=9,
         rule="every ordered pair of non-degenerate segments on the 3x3 integer grid (5184 pairs, exhaustive, each run; thorough adds the 4x4 grid, "
              "57600 pairs) + random pairs on grids 4/8/64/2^20 in eight configurations (random, touching at an endpoint, T-junction, collinear "
              "overlapping, collinear touching, parallel, collinear disjoint, an axis-parallel segment crossed by a far-reaching one) and long segments "
